@@ -15,8 +15,10 @@ import (
 
 func init() {
 	register(&Property{
-		ID:  "C08",
-		Gen: genC08,
+		ID:    "C08",
+		Files: []string{"queue.go"},
+		Funcs: []string{"ConcurrentQueue", "ConcurrentStack"},
+		Gen:   genC08,
 		Rule: "P producers x K consumers (quick 1..4 each with 1..4 ops, thorough up to 16 x 16) on a ConcurrentQueue/ConcurrentStack wrapping the real LinkedListQueue " +
 			"(statement-level yields inside it) or a harness slice queue/stack with a yield between its load and store; final single-threaded drain; " +
 			"history checked with porcupine against a sequential FIFO/LIFO model plus direct duplicate/lost/invented checks; " +
